@@ -10,8 +10,7 @@ DEMO=$(python3 -c "import json;print(json.load(open('_seed/meta.json')).get('dem
 DEMOF=$(find . -name 'zz_seed_demo_test.go' -not -path './_seed/*' | head -1)
 [ -n "$DEMOF" ] || { echo "demo file not found"; exit 1; }
 PKG=./$(dirname $DEMOF)
-git stash -q --include-untracked -- $(git diff --name-only) 2>/dev/null || true
-git checkout -q -- . 2>/dev/null
+git checkout -q -- . 2>/dev/null   # the agent leaves the change reverted; make sure (never stash: the stash list is shared with /repo)
 echo "== demo on unchanged code"; go1.26 test -vet=off -count=1 -run TestSeedDemo $PKG 2>&1 | tail -2; R1=${PIPESTATUS[0]}
 git apply _seed/patch.diff || { echo "patch does not apply"; exit 1; }
 echo "== demo with the change"; go1.26 test -vet=off -count=1 -run TestSeedDemo $PKG 2>&1 | tail -3; R2=${PIPESTATUS[0]}
